@@ -437,6 +437,9 @@ class FnExec:
     # ------------------------------------------------------------------ run
     def run(self):
         try:
+            od = front.opaque_decorators(self.node)
+            if od:
+                raise Unsupported(f"decorator {od[0]} may change the meaning of a call (not in the transparent list)")
             st = self.make_entry_state()
             self.entry = st.clone()
             # ghost constants
@@ -1971,6 +1974,9 @@ class FnExec:
                         kw[k.arg] = v
                         continue
                     # **mapping with constant string keys
+                    if v.kind == "kwlocal":
+                        kw["**"] = v          # a symbolic keyword table (plugin-modelled constructor call)
+                        continue
                     if v.kind != "cdict":
                         raise Unsupported("** of a non-literal mapping")
                     for kk, vv in v.t:
@@ -2201,6 +2207,9 @@ class FnExec:
         return v
 
     def inline_call(self, c, mi, q, fn_node, bound, st):
+        od = front.opaque_decorators(fn_node)
+        if od:
+            raise Unsupported(f"call to {q}: decorator {od[0]} may change the meaning of the call")
         sub = FnExec.__new__(FnExec)
         sub.__dict__.update(self.__dict__)
         sub.mi = mi
